@@ -1498,7 +1498,7 @@ Proof. exact lazy_converse_nonvacuous. Qed.
 (* ==== the BCF FILE: header block + record loop (NV.Bcf.File) ==== *)
 From NV Require Import Text.TextBase Vcf.Values Vcf.Line Vcf.Header Vcf.HeaderProofs Vcf.HdrFrameProofs Vcf.File.
 From NV Require Import Bcf.Ints Bcf.Typed Bcf.Strings Bcf.Genotype Bcf.StringMap Bcf.StringMapProofs Bcf.Record
-  Bcf.RecordTyped Bcf.Bridge Bcf.BridgeProofs Bcf.ColumnProofs Bcf.Lazy Bcf.LazySiteProofs Bcf.LazyEagerProofs Bcf.File Bcf.FileProofs.
+  Bcf.RecordTyped Bcf.Bridge Bcf.BridgeProofs Bcf.ColumnProofs Bcf.Lazy Bcf.LazySiteProofs Bcf.LazyEagerProofs Bcf.File Bcf.FileProofs Bcf.FileLazyDomain.
 
 (* The line reader of the header text (header/vcf_header.rs + read_line): the written lines, each
    followed by LF, then the NUL, are split into exactly those lines, whatever follows the NUL.
@@ -1639,6 +1639,60 @@ Theorem c10_file_roundtrip_lazy : forall hd rs backs bs,
                  Forall2 (same_content (h_v44 (hctx_of_header hd))) lbacks backs.
 Proof. exact file_roundtrip_lazy. Qed.
 Print Assumptions c10_file_roundtrip_lazy.
+
+(* THE CLASS PREMISE DISCHARGED FOR WRITTEN STREAMS, on the sub-domain of headers without Character
+   arrays in INFO and without Character FORMAT keys (hdr_no_chars: a decidable predicate of the
+   HEADER the writer is given -- effective definitions = the header's lines, then the reserved ones,
+   as both readers look them up).  Under such a header every record boundary of every stream is in
+   lazy_agree, whatever the bytes: *)
+Theorem c10_file_agree_no_character_keys : forall bs,
+  (forall h s c rest, read_prefix bs = FOk (h, s, c, rest) -> hdr_no_chars h = true) ->
+  file_agree bs = true.
+Proof. exact file_agree_no_chars. Qed.
+Print Assumptions c10_file_agree_no_character_keys.
+
+(* ... so lazy file = eager file on ANY byte stream with such a header (hostile streams included) *)
+Theorem c10_file_lazy_eq_eager_no_character_keys : forall bs hd backs,
+  byte_list bs -> hdr_no_chars hd = true ->
+  bcf_read_file bs = FOk (hd, (backs, EndEof)) ->
+  exists lbacks, bcf_read_file_lazy bs = FOk (hd, (lbacks, EndEof)) /\
+                 Forall2 (same_content (h_v44 (hctx_of_header hd))) lbacks backs.
+Proof. exact file_lazy_of_eager_no_chars. Qed.
+Print Assumptions c10_file_lazy_eq_eager_no_character_keys.
+
+(* ... and for the stream bcf_write_file WRITES the premise follows from the writer's input: the
+   header read back is the header written (c10_header_block_roundtrip) *)
+Theorem c10_file_agree_written : forall hd rs bs,
+  header_ok hd -> hdr_defs_ok hd = true -> hdr_vals_framed hd ->
+  hdr_no_chars hd = true ->
+  bcf_write_file hd rs = Ok bs ->
+  file_agree bs = true.
+Proof. exact file_agree_written. Qed.
+Print Assumptions c10_file_agree_written.
+
+(* the full statement below on that sub-domain; what is left of the two premises is that the written
+   stream is a list of BYTES (every N below 256: the model's strings are lists of N) *)
+Theorem c10_file_roundtrip_lazy_no_character_keys_partial : forall hd rs backs bs,
+  header_ok hd -> hdr_defs_ok hd = true -> hdr_vals_framed hd ->
+  hdr_no_chars hd = true ->
+  (forall s c, maps_of_header hd = Some (s, c) -> Forall2 (file_rec_dom s c (hctx_of_header hd)) rs backs) ->
+  bcf_write_file hd rs = Ok bs ->
+  byte_list bs ->
+  exists lbacks, bcf_read_file_lazy bs = FOk (hd, (lbacks, EndEof)) /\
+                 Forall2 (same_content (h_v44 (hctx_of_header hd))) lbacks backs.
+Proof. exact file_roundtrip_lazy_no_chars. Qed.
+Print Assumptions c10_file_roundtrip_lazy_no_character_keys_partial.
+
+(* what the correspondence check reports per stream (kinds bf/bfx, field NC/A): whenever the header
+   read back has no Character keys, the computed file_agree is true *)
+Theorem c10_file_class_sound : forall bs nb a,
+  file_class bs = (Some true, nb, a) -> a = true.
+Proof. exact file_class_sound. Qed.
+Print Assumptions c10_file_class_sound.
+
+(* non-vacuity: the example header below is in the sub-domain *)
+Example c10_no_character_keys_example : hdr_no_chars exf_h = true.
+Proof. vm_compute. reflexivity. Qed.
 
 (* still unproved: that the two premises on the WRITTEN bytes follow from the record domain (every
    string of a record of file_rec_dom is a byte string; its Characters are ASCII) *)
